@@ -216,6 +216,7 @@ func (c *Conn) processEncryptedClientHello(h *clientHello, isRetry bool) (*clien
 		return nil, nil
 	}
 	var innerBytes []byte
+	var opened bool // innerBytes is nil when the payload opens to an empty plaintext
 	for i, key := range c.keys {
 		cfg, err := Config(key.Config).Spec()
 		if err != nil || cfg.ID != h.echExt.ConfigID || slices.IndexFunc(cfg.CipherSuites, func(cs CipherSuite) bool {
@@ -257,12 +258,12 @@ func (c *Conn) processEncryptedClientHello(h *clientHello, isRetry bool) (*clien
 		if string(cfg.PublicName) != h.ServerName {
 			return nil, ErrIllegalParameter
 		}
-		innerBytes = b
+		innerBytes, opened = b, true
 		c.hpkeCtx = hpkeCtx
 		c.hpkeKey = i
 		break
 	}
-	if innerBytes == nil {
+	if !opened {
 		// Section 7.1.1, regarding a retried ClientHello:
 		// If decryption fails, the client-facing server MUST abort the
 		// handshake with a "decrypt_error" alert.
